@@ -50,7 +50,8 @@ def job(info, cn):
         pad = ' + y.%sobjectSize %% 4' % O if info.pads(cn) else ''
         concl = '(is.hdr_end || is.clamped || is.asked == (uint64_t)y.%sobjectSize%s)' % (O, pad)
         src += '    __CPROVER_assert(!(vb_exc == 0 && is.rdstate == IOS_goodbit && y.%sobjectSize == %s && %s) || %s, "C03/%s/read/R3-decoding-consumes-exactly-objectSize-(plus-padding)-for-every-payload-length-when-the-decoded-sizes-are-consistent");\n' % (O, calc, small, concl, cn)
-        nextra = 1
+        src += '    __CPROVER_assert(!(vb_exc == 0 && is.rdstate == IOS_goodbit) || is.g >= g0 + 16, "C10/%s/read/R5-a-decode-that-ends-good-has-consumed-at-least-the-16-byte-base-header");\n' % cn
+        nextra = 2
     else:
         nextra = 0
     src += '    __CPROVER_assert(!is.hdr_end || vb_exc != 0 || is.rdstate != IOS_goodbit, "C08/%s/read/R6-an-object-cut-short-by-the-end-of-the-stream-never-ends-with-the-stream-good");\n' % cn
